@@ -438,7 +438,73 @@ def gen_plan(rng):
                     f["comment"] = rng.randrange(2)
                 st["fault"] = f
         steps.append(st)
+    if rng.random() < 0.15:
+        cfg["glob_names"] = True
+        steps = glob_names(rng, steps)
     return {"prop": PROP, "steps": steps, "cfg": cfg}
+
+
+# legal but unusual names: path components containing characters that mean something to
+# glob/fnmatch/regular expressions, each with a sibling that the component would MATCH if it
+# were (wrongly) read as a pattern ("lib[1]" matches "lib1" and not itself; "pr?m.xbb" matches
+# both).  A decoy declaring the same program is put at the all-siblings path of every file.
+GLOB_NAMES = {"lib": ("lib[1]", "lib1"), "deep": ("d[e]ep", "deep"), "sub.xbb": ("s[u]b.xbb", "sub.xbb"),
+              "x": ("x[0]", "x0"), "prim.xbb": ("pr?m.xbb", "prim.xbb"), "app": ("app*", "app2"),
+              "inner.xbb": ("inner[!a].xbb", "innerb.xbb")}
+
+
+def _rename(path, table, which=0):
+    if not isinstance(path, str):
+        return path
+    return "/".join(table[c][which] if c in table else c for c in path.split("/"))
+
+
+def glob_names(rng, steps):
+    table = dict((k, v) for k, v in GLOB_NAMES.items() if rng.random() < 0.6)
+    if not table:
+        return steps
+    inv = dict((v[0], v) for v in table.values())
+    out = copy.deepcopy(steps)
+
+    def fix_prog(prog):
+        prog["includes"] = [_rename(sp, table) for sp in prog["includes"]]
+
+    for st in out:
+        for key in ("path", "target", "cwd", "name"):
+            if key in st:
+                st[key] = _rename(st[key], table)
+        if isinstance(st.get("prog"), dict):
+            fix_prog(st["prog"])
+        if isinstance(st.get("fault"), dict) and "path" in st["fault"]:
+            st["fault"]["path"] = _rename(st["fault"]["path"], table)
+    # siblings: where the renamed path, read as a pattern, would look
+    fs = M.FS()
+    decoys = []
+    taken = set(st["path"] for st in out if st["op"] in ("write", "symlink"))
+    for st in out:
+        if st["op"] == "symlink":
+            fs.links[st["path"]] = st["target"]
+        if st["op"] == "write" and "prog" in st:
+            fs.files[st["path"]] = st["prog"]
+    for st in out:
+        if st["op"] != "write" or "prog" not in st or st.get("rewrite"):
+            continue
+        comps = st["path"].split("/")
+        if not any(c in inv for c in comps):
+            continue
+        sib = "/".join(inv[c][1] if c in inv else c for c in comps)
+        if sib in taken or any(sib.startswith(lp + "/") for lp in fs.links):
+            continue
+        try:
+            ex = M.expand_file(fs, st["path"])
+            name, nm = ex["name"], len(ex["modes"])
+        except Exception:
+            name, nm = st["prog"]["name"], 1
+        taken.add(sib)
+        decoys.append({"op": "write", "path": sib, "text": decoy_text(rng, name, max(1, nm), same_arity=rng.random() < 0.7),
+                       "decoy": True, "glob_sibling": True})
+    first = next((i for i, st in enumerate(out) if st["op"] in ("chdir", "load", "loads")), len(out))
+    return out[:first] + decoys + out[first:]
 
 
 # ------------------------------------------------------------------ oracle
@@ -552,6 +618,8 @@ def run(plan, ctx):
         ev = by_i[i]
         bump("loads")
         bump("style:" + (st.get("style") or "loads"))
+        if plan.get("cfg", {}).get("glob_names"):
+            bump("probe:load_in_tree_with_glob_characters_in_names")
         f = fs.copy()
         if op == "loads":
             mainpath = "__loads__/main.xbb"
